@@ -31,10 +31,22 @@
 (***************************************************************************)
 EXTENDS Naturals, Sequences, FiniteSets
 
-CONSTANTS Aliases,      \* e.g. {"a", "b", "c"}
-          V1,           \* aliases that have a v1 configuration file from the start
-          V1Cfg,        \* their configurations: [V1 -> Cfg]
-          Contents      \* abstract content values, e.g. {0, 1}
+\* Apalache type aliases (comments for TLC):
+\* @typeAlias: cfg = { c: Int, iss: Str, prof: Str };
+\* @typeAlias: art = { cert: Bool, certc: Int, iss: Str, issc: Int, key: Int };
+\* @typeAlias: state = { file: Str -> Str, pem: Str -> Bool, disk: Str -> $art, known: Str -> Bool, cfg: Str -> $cfg, dbart: Str -> $art, profs: Bool, nkeys: Int };
+\* @typeAlias: op = { name: Str, e: Str, cfg: $cfg, ow: Bool };
+DbApi_typedefs == TRUE
+
+CONSTANTS
+  \* @type: Set(Str);
+  Aliases,      \* e.g. {"a", "b", "c"}
+  \* @type: Set(Str);
+  V1,           \* aliases that have a v1 configuration file from the start
+  \* @type: Str -> $cfg;
+  V1Cfg,        \* their configurations: [V1 -> Cfg]
+  \* @type: Set(Int);
+  Contents      \* abstract content values, e.g. {0, 1}
 
 NoAlias == ""
 NoC     == 99
@@ -46,6 +58,7 @@ Empty   == [cert |-> FALSE, certc |-> NoC, iss |-> NoAlias, issc |-> NoC, key |-
 NoArt   == [cert |-> FALSE, certc |-> NoC, iss |-> NoAlias, issc |-> NoC, key |-> 0]    \* no file: same facts as an empty artifact
 FileKinds == {"none", "v1", "dump"}
 
+\* @type: $state => Bool;
 TypeOK(s) ==
   /\ s.file  \in [Aliases -> FileKinds]
   /\ s.pem   \in [Aliases -> BOOLEAN]
@@ -65,26 +78,34 @@ Init0 ==
     nkeys |-> 0 ]
 
 \* ------------------------------------------------------------------ operations
-Ops ==
-       [name : {"PutConfig"},  e : Aliases \cup {NoAlias}, cfg : Cfg]
-  \cup [name : {"AddAndSign"}, e : Aliases \cup {NoAlias}, cfg : Cfg, ow : BOOLEAN]
-  \cup [name : {"Delete"},     e : Aliases]
-  \cup [name : {"AddProfile"}]
-  \cup [name : {"Reopen"}]
+OpNames == {"PutConfig", "AddAndSign", "Delete", "AddProfile", "Reopen"}
+\* one record shape for every operation (unused fields carry fixed values), so that the module type-checks for Apalache too
+\* @type: $op => Bool;
+Canon(op) ==
+  CASE op.name = "PutConfig"  -> op.cfg \in Cfg /\ ~op.ow
+    [] op.name = "AddAndSign" -> op.cfg \in Cfg
+    [] op.name = "Delete"     -> op.e \in Aliases /\ op.cfg = NoCfg /\ ~op.ow
+    [] OTHER                  -> op.e = NoAlias /\ op.cfg = NoCfg /\ ~op.ow
+Ops == { op \in [name : OpNames, e : Aliases \cup {NoAlias}, cfg : Cfg \cup {NoCfg}, ow : BOOLEAN] : Canon(op) }
 \* (a configuration never names its own alias as issuer in this model: the projection reads the issuer off the certificate's issuer name)
+\* @type: $op => Bool;
 WellFormed(op) == op.name \in {"PutConfig", "AddAndSign"} => op.cfg.iss # op.e \/ op.e = NoAlias
 
 \* PutConfig: memory always; the file only for an alias the database has not seen (KnownAliasNoFile)
+\* @type: ($state, Str, $cfg) => $state;
 Put(s, e, c) ==
   IF s.known[e]
   THEN [s EXCEPT !.cfg[e] = c]
   ELSE [s EXCEPT !.cfg[e] = c, !.known[e] = TRUE, !.file[e] = "dump", !.dbart[e] = Empty]
 
+\* @type: ($state, $op) => Set(<<$state, Str>>);
 ApplyPut(s, op) ==
   IF op.e = NoAlias THEN {<<s, "err">>} ELSE {<<Put(s, op.e, op.cfg), "ok">>}
 
+\* @type: ($state, Str) => $art;
 IssuerArt(s, i) == IF s.known[i] THEN s.dbart[i] ELSE Empty
 
+\* @type: ($state, $op) => Set(<<$state, Str>>);
 ApplyAdd(s, op) ==
   LET e == op.e  c == op.cfg IN
   IF e = NoAlias THEN {<<s, "err">>}
@@ -100,18 +121,22 @@ ApplyAdd(s, op) ==
             IN {<<[s1 EXCEPT !.dbart[e] = new, !.disk[e] = new, !.pem[e] = TRUE, !.nkeys = IF fresh THEN @ + 1 ELSE @], "ok">>}
 
 \* DeleteDoesNothing
+\* @type: ($state, $op) => Set(<<$state, Str>>);
 ApplyDelete(s, op) == {<<s, "ok">>}
 
+\* @type: ($state, $op) => Set(<<$state, Str>>);
 ApplyAddProfile(s, op) == {<<[s EXCEPT !.profs = TRUE], "ok">>}
 
 \* a new database object opened on the same directory: only v1 files are configurations (DumpIsNotAConfig); profiles that
 \* were added through the interface are gone; artifacts are read from the files next to the configurations
+\* @type: ($state, $op) => Set(<<$state, Str>>);
 ApplyReopen(s, op) ==
   {<<[s EXCEPT !.known = [e \in Aliases |-> s.file[e] = "v1"],
                !.cfg   = [e \in Aliases |-> IF s.file[e] = "v1" THEN V1Cfg[e] ELSE NoCfg],
                !.dbart = [e \in Aliases |-> IF s.file[e] = "v1" /\ s.pem[e] THEN s.disk[e] ELSE Empty],
                !.profs = FALSE], "ok">>}
 
+\* @type: ($state, $op) => Set(<<$state, Str>>);
 Apply(s, op) ==
   CASE op.name = "PutConfig"  -> ApplyPut(s, op)
     [] op.name = "AddAndSign" -> ApplyAdd(s, op)
@@ -120,11 +145,20 @@ Apply(s, op) ==
     [] op.name = "Reopen"     -> ApplyReopen(s, op)
 
 \* ------------------------------------------------------------------ the state machine
-VARIABLES s, last, n
+VARIABLES
+  \* @type: $state;
+  s,
+  \* @type: { op: $op, result: Str };
+  last,
+  \* @type: Int;
+  n
 vars == <<s, last, n>>
-CONSTANT MaxOps
+CONSTANT
+  \* @type: Int;
+  MaxOps
 
-Init == s = Init0 /\ last = [op |-> [name |-> "Init"], result |-> "ok"] /\ n = 0
+NoOp == [name |-> "Init", e |-> NoAlias, cfg |-> NoCfg, ow |-> FALSE]
+Init == s = Init0 /\ last = [op |-> NoOp, result |-> "ok"] /\ n = 0
 Next == /\ (MaxOps = 0 \/ n < MaxOps)
         /\ \E op \in Ops : WellFormed(op) /\ \E r \in Apply(s, op) :
               s' = r[1] /\ last' = [op |-> op, result |-> r[2]] /\ n' = n + 1
